@@ -453,7 +453,7 @@ func runCover(o *Obligation, work string, seed int, fullTimeout int) string {
 		}
 		kept = append(kept, l)
 	}
-	r := runSMTPost(work, o.Name+".qf", strings.Join(kept, "\n"), "", 6, seed, []string{"z3-new"})
+	r := runSMTPost(work, o.Name+".qf", strings.Join(kept, "\n"), "", 6, seed, []string{"z3-new", "cvc5"})
 	if r.Status == "unsat" {
 		return "unsat"
 	}
